@@ -298,6 +298,74 @@ def _op_prepared(w: W) -> Op:
     return "PreparedPoint.mult", fn, ("point", w.ref.mul(m, Q))
 
 
+def _op_private(w: W) -> Op:
+    """The helpers the statement's mechanisms name beside the public entry points (`curve.py: _sum_var,
+    _tweak_add_var`, the tweak chain and the Jacobian double multiplication built on them): the sums other modules
+    are made of. Private names: one that a tree no longer has is a seam that is not there (probe, and a plain
+    multiplication instead), never an alarm."""
+    from btclib.curves import curve as cv  # noqa: PLC0415
+
+    ch, ref = w.ch, w.ref
+    api = ch.pick(["_sum_var", "_tweak_add_var", "_TweakChain", "_jac_double_mult"], "priv.api")
+    target = getattr(cv, api, None)
+    if target is None:
+        w.ctx.probe("seam-unavailable:curve." + api)
+        return _op_mult(w)
+    if api == "_sum_var":
+        shape = ch.weighted([("plain", 5), ("cancelling", 2), ("all-infinity", 1), ("closing-term", 2)], "priv.sum.shape")
+        pts = [w.point("priv.sum.P") for _ in range(ch.draw(6, "priv.sum.len"))]
+        if shape == "cancelling" and pts:
+            at = ch.draw(len(pts) + 1, "priv.sum.at")
+            pts = pts[:at] + [pts[0], ref.neg(pts[0])] + pts[at:]  # not adjacent in general: the partial sums pass through anything
+        elif shape == "all-infinity":
+            pts = [None] * (1 + ch.draw(3, "priv.sum.ninf"))
+        elif shape == "closing-term" and pts:
+            pts.append(ref.neg(ref.multi([1] * len(pts), pts)))
+        w.ctx.log("op", api, shape, pts)
+        return api, lambda ec: target([_lib(Q) for Q in pts], ec), ("point", ref.multi([1] * len(pts), pts) if pts else None)
+    if api == "_tweak_add_var":
+        Q, t = w.point("priv.tw.P"), w.scalar("priv.tw.t")
+        if ch.chance(1, 5, "priv.tw.cancel?"):
+            Q = ref.neg(ref.mul(t, ref.G))  # lands on infinity
+        w.ctx.log("op", api, Q, t)
+        return api, lambda ec: target(_lib(Q), t, ec), ("point", ref.multi([1, t], [Q, ref.G]))
+    if api == "_TweakChain":
+        base = w.point("priv.chain.B", inf_ok=bool(ch.draw(4, "priv.chain.inf-ok?") == 3))
+        tweaks = [w.scalar("priv.chain.t", cheap=True) for _ in range(1 + ch.draw(5, "priv.chain.len"))]
+        if ch.chance(1, 3, "priv.chain.repeat?"):
+            tweaks.insert(ch.draw(len(tweaks), "priv.chain.rat") + 1, tweaks[0])  # the same tweak again: a zero step
+        if ch.chance(1, 3, "priv.chain.infinity?") and base is not None:
+            k = next((k for k in range(1, min(w.n, 400)) if ref.mul(k, ref.G) == base), None) if not w.big else None
+            if k is None and w.big:
+                k = 1 + ch.draw(1000, "priv.chain.k")
+                base = ref.mul(k, ref.G)
+            if k is not None:
+                tweaks.insert(ch.draw(len(tweaks) + 1, "priv.chain.iat"), -k)  # this step lands on infinity; the chain goes on after it
+        w.ctx.log("op", api, base, tweaks)
+        return api, lambda ec: (lambda c: [c.point(t) for t in tweaks])(target(_lib(base), ec)), ("points", [ref.multi([1, t], [base, ref.G]) for t in tweaks])
+    # u*H + v*Q with operands in Jacobian coordinates under a drawn Z, the answer read back through the curve's own conversion
+    u, H, v, Q = w.scalar("priv.jac.u"), w.point("priv.jac.H"), w.scalar("priv.jac.v"), w.point("priv.jac.Q")
+    if ch.chance(1, 5, "priv.jac.cancel?"):
+        v, Q = -u, H
+    u, v = u % w.n, v % w.n  # its callers hand it reduced coefficients (n - c, s): that is the contract of a private name
+
+    def jac(R: RefPoint, label: str) -> tuple[int, int, int]:
+        if R is None:
+            return ch.pick([(7, 0, 0), (0, 1, 0), (1, 1, 0)], label + ".inf")  # any z == 0 is infinity
+        z = ch.pick([1, 1, w.p - 1, None], label + ".z") or 1 + ch.draw(w.p - 1, label + ".zz")
+        return (R[0] * z * z % w.p, R[1] * z * z * z % w.p, z)
+
+    HJ, QJ = jac(H, "priv.jac.HJ"), jac(Q, "priv.jac.QJ")
+    prepared = bool(ch.draw(2, "priv.jac.fixed?"))
+    w.ctx.log("op", api, u, HJ, v, QJ, prepared)
+
+    def fn(ec: Curve) -> Any:
+        fixed = ec._fixed_points | ({QJ, ec.negate_jac(QJ)} if prepared and QJ[2] == 1 else set())
+        return ec.aff_from_jac_var(target(u, HJ, v, QJ, ec, fixed))
+
+    return api, fn, ("point", ref.multi([u, v], [H, Q]))
+
+
 def _modulus(w: W, label: str, composite_ok: bool) -> int:
     kinds = ["curve-p", "curve-n", "3mod4", "5mod8", "1mod8"] + (["composite"] * 3 if composite_ok else [])
     kind = w.ch.pick(kinds, label + ".class")
@@ -445,7 +513,7 @@ def _op_bad_curve(w: W) -> Op:
 
 BUILDERS: list[tuple[Callable[[W], Op], int]] = [
     (_op_mult, 6), (_op_double, 5), (_op_multi, 5), (_op_prepared, 4), (_op_inverse, 4), (_op_root, 3),
-    (_op_codec, 3), (_op_refusal, 3), (_op_bad_curve, 1),
+    (_op_codec, 3), (_op_refusal, 3), (_op_bad_curve, 1), (_op_private, 4),
 ]
 
 
@@ -478,6 +546,9 @@ def _execute(w: W, op: Op, first: Any = None, again: bool = False) -> Any:
             w.results = (w.results + [answer])[-6:]
             if answer is None and w.delegated():
                 ctx.probe("infinity-on-delegated-arm")
+        elif expect[0] == "points":
+            answer = [_ref(g) for g in got]
+            ctx.check(P, "group-law", answer == expect[1], lambda: f"{site} on {w.label}: {got} != reference {expect[1]} (bindings={st.backend()})", site=site)
         elif expect[0] == "inverse":
             _, want, ops, m = expect
             answer = got
